@@ -1,2 +1,4 @@
 import TrippyVerif.Model.Basic
 import TrippyVerif.Props.C12
+import TrippyVerif.Props.C13
+import TrippyVerif.Model.StrategyIO
